@@ -881,7 +881,7 @@ pub fn c06(ctx: &Ctx) -> Report {
             alpha.extend([0xF8u8, 0xFE, 0xFF]);
         }
         let m = FrameM { t: Twin::new(ch), alphabet: std::sync::Arc::new(alpha.clone()), max_held: if thorough { 2 } else { 1 } };
-        let r = explore(m, &ExploreCfg { max_depth: None, state_cap: 8_000_000, threads: ctx.threads, label: format!("single bytes, channel {}, alphabet of {} bytes", ch, alpha.len()) }, &mut rep, &["C06"]);
+        let r = explore(m, &ExploreCfg { max_depth: None, state_cap: if thorough { 40_000_000 } else { 8_000_000 }, threads: ctx.threads, label: format!("single bytes, channel {}, alphabet of {} bytes", ch, alpha.len()) }, &mut rep, &["C06"]);
         if !r.fixpoint && !r.cap_hit {
             rep.machinery("byte-level exploration ended without a fixpoint".into());
         }
